@@ -382,7 +382,7 @@ def gzStage (gz : GzOracle) (h : Header) (p : Packet) : Res Packet :=
 def mdLenOf (v : Ver) (h : Header) : Nat := match v with | .v1 => 0 | .v2 => h.metadataLength.toNat
 
 /-- everything `unpackBytes` does after the header -/
-def unpackBody (v : Ver) (gz : GzOracle) (codec : UInt8) (h : Header) (data : Bytes) : Res Packet :=
+def oneShotBody (v : Ver) (gz : GzOracle) (codec : UInt8) (h : Header) (data : Bytes) : Res Packet :=
   let ml := mdLenOf v h
   let bl := h.bodyLength.toNat
   if data.length < bl + ml then .err "invalid frame" else do
@@ -393,7 +393,7 @@ def unpackBody (v : Ver) (gz : GzOracle) (codec : UInt8) (h : Header) (data : By
   gzStage gz h p
 
 theorem unpackBytes_eq (v : Ver) (gz : GzOracle) (codec : UInt8) (bs : Bytes) :
-    unpackBytes v gz codec bs = Header.unpackBytes v bs >>= fun (h, data) => unpackBody v gz codec h data := rfl
+    unpackBytes v gz codec bs = Header.unpackBytes v bs >>= fun (h, data) => oneShotBody v gz codec h data := rfl
 
 /-! ### no-panic bookkeeping -/
 
@@ -498,23 +498,23 @@ theorem verifyStage_noPanic (h : Header) (data : Bytes) (idx : Nat) (p : Packet)
       rw [this]; rfl
 
 theorem unpackBody_guard (v : Ver) (gz : GzOracle) (codec : UInt8) (h : Header) (data : Bytes)
-    (hg : data.length < h.bodyLength.toNat + mdLenOf v h) : unpackBody v gz codec h data = .err "invalid frame" := by
-  unfold unpackBody; simp only [hg, ↓reduceIte]
+    (hg : data.length < h.bodyLength.toNat + mdLenOf v h) : oneShotBody v gz codec h data = .err "invalid frame" := by
+  unfold oneShotBody; simp only [hg, ↓reduceIte]
 
 /-- past the length guard both slices are in range -/
 theorem unpackBody_long (v : Ver) (gz : GzOracle) (codec : UInt8) (h : Header) (data : Bytes)
     (hg : ¬ data.length < h.bodyLength.toNat + mdLenOf v h) :
-    unpackBody v gz codec h data =
+    oneShotBody v gz codec h data =
       (mdStage v (data.take (mdLenOf v h))
           { Header.toPacket h codec with body := (data.take (h.bodyLength.toNat + mdLenOf v h)).drop (mdLenOf v h) } >>= fun p =>
         verifyStage h data (h.bodyLength.toNat + mdLenOf v h) p >>= fun p => gzStage gz h p) := by
-  unfold unpackBody
+  unfold oneShotBody
   simp only [hg, ↓reduceIte]
   rw [Bytes.slice_ok _ _ _ (by omega) (by omega), Bytes.slice_ok _ _ _ (by omega) (by omega)]
   simp only [Res.ok_bind, List.drop_zero]
 
 theorem unpackBody_noPanic (v : Ver) (gz : GzOracle) (codec : UInt8) (h : Header) (data : Bytes) :
-    (unpackBody v gz codec h data).isPanic = false := by
+    (oneShotBody v gz codec h data).isPanic = false := by
   by_cases hg : data.length < h.bodyLength.toNat + mdLenOf v h
   · rw [unpackBody_guard v gz codec h data hg]; rfl
   · rw [unpackBody_long v gz codec h data hg]
@@ -528,7 +528,7 @@ theorem unpackBody_noPanic (v : Ver) (gz : GzOracle) (codec : UInt8) (h : Header
 when the verify bit is set, the 24-byte trailer -/
 theorem unpackBody_short (v : Ver) (gz : GzOracle) (codec : UInt8) (h : Header) (data : Bytes)
     (hs : data.length < h.bodyLength.toNat + mdLenOf v h + (if (h.verify == 1) = true then 24 else 0)) :
-    ∃ e, unpackBody v gz codec h data = .err e := by
+    ∃ e, oneShotBody v gz codec h data = .err e := by
   by_cases hg : data.length < h.bodyLength.toNat + mdLenOf v h
   · exact ⟨_, unpackBody_guard v gz codec h data hg⟩
   · rw [unpackBody_long v gz codec h data hg]
